@@ -239,3 +239,44 @@ Proof. intro Hp. apply bridge_B1; [exact Hp | exact gaussian_integral_unit]. Qed
 Corollary bridge_B1_monomials_closed (p P : R) (n : nat) : 0 < p ->
   gint (fun x => (x - P) ^ n * exp (- p * (x - P) ^ 2)) (sqrt (PI / p) * momR p n).
 Proof. intro Hp. apply bridge_B1_monomials; [exact Hp | now apply gaussian_integral]. Qed.
+
+(* ------------------------------------------------------------------ *)
+(* The one-dimensional factor of the overlap / multipole-moment integrals, as an honest integral:
+     int_R (x-C)^k (x-A)^i (x-B)^j e^{-al (x-A)^2} e^{-be (x-B)^2} dx
+       = e^{-mu (A-B)^2} sqrt(PI/p) * S3 0 k i j
+   with p = al+be, P = (al A + be B)/p, mu = al be/p, and S3 of Gauss/Moment1D.v at v = 1/(2p),
+   a = P-A, b = P-B, c = P-C — the quantity all separable-integral theorems (C01, C02, C07, C08) speak about. *)
+Lemma peval_plin c f y : peval (plin RKd c f) y = (y + c) * peval f y.
+Proof. unfold plin. rewrite peval_padd, peval_pscale, peval_pshift. ring. Qed.
+
+Lemma peval_plin_pow c e f y : peval (plin_pow RKd c e f) y = (y + c) ^ e * peval f y.
+Proof. induction e as [|e IH]; cbn [plin_pow pow]; [ring|]. rewrite peval_plin, IH. ring. Qed.
+
+Lemma peval_g3 a b c k i j y :
+  peval (g3 RKd a b c k i j) y = (y + c) ^ k * (y + a) ^ i * (y + b) ^ j.
+Proof. unfold g3. rewrite !peval_plin_pow. cbn [peval f1 RKd]. ring. Qed.
+
+Theorem overlap_1d_integral (al be A B C : R) (k i j : nat) : 0 < al -> 0 < be ->
+  let p := al + be in let P := (al * A + be * B) / p in let mu := al * be / p in
+  gint (fun x => (x - C) ^ k * (x - A) ^ i * (x - B) ^ j
+                 * exp (- al * (x - A) ^ 2) * exp (- be * (x - B) ^ 2))
+       (exp (- mu * (A - B) ^ 2) * sqrt (PI / p) * S3 RKd (vR p) (P - A) (P - B) (P - C) 0 k i j).
+Proof.
+  intros Hal Hbe p P mu. assert (Hp : 0 < p) by (unfold p; lra).
+  destruct (bridge_B1_closed p P (g3 RKd (P - A) (P - B) (P - C) k i j) Hp) as [H _].
+  apply (gint_ext (fun x => exp (- mu * (A - B) ^ 2)
+                            * (peval (g3 RKd (P - A) (P - B) (P - C) k i j) (x - P)
+                               * exp (- p * (x - P) ^ 2))) _
+                  (exp (- mu * (A - B) ^ 2)
+                   * (sqrt (PI / p) * E RKd (vR p) (g3 RKd (P - A) (P - B) (P - C) k i j)))).
+  - intro x. rewrite peval_g3.
+    replace (x - P + (P - C)) with (x - C) by ring.
+    replace (x - P + (P - A)) with (x - A) by ring.
+    replace (x - P + (P - B)) with (x - B) by ring.
+    assert (Hexp : exp (- al * (x - A) ^ 2) * exp (- be * (x - B) ^ 2)
+                   = exp (- mu * (A - B) ^ 2) * exp (- p * (x - P) ^ 2)).
+    { rewrite <- !exp_plus. f_equal. unfold mu, P, p. field. lra. }
+    rewrite (Rmult_assoc _ (exp (- al * (x - A) ^ 2))), Hexp. ring.
+  - unfold S3, E. ring.
+  - exact (gint_scal _ _ _ H).
+Qed.
